@@ -118,10 +118,20 @@ def main():
         names = sys.argv[2:] or sorted(p.name for p in S.iterdir() if (p / 'meta.json').exists())
         from concurrent.futures import ThreadPoolExecutor
 
+        fast = os.environ.get('SEED_FAST') == '1'
+
         def job(n):
             d = S / n
             try:
-                res = run_one(d)
+                checks = None
+                if fast:
+                    # regression mode: the seed's own property and the checks that reported it last time;
+                    # every check again only if none of them reports it any more
+                    meta0 = json.loads((d / 'meta.json').read_text())
+                    checks = sorted({meta0['property']} | set((meta0.get('last_run') or {}).get('caught_by', {})))
+                res = run_one(d, checks)
+                if fast and not res.get('caught_by') and 'error' not in res:
+                    res = run_one(d)
             except Exception as e:  # keep going
                 res = {'error': repr(e)}
             meta = json.loads((d / 'meta.json').read_text())
